@@ -10,7 +10,46 @@ import tempfile
 from . import driver
 
 
+def run_families(args):
+    """the bounded stand-ins decide when a contract no longer fits the code: on the unchanged tree every one of them must pass
+    (a stand-in that fails here would turn a harmless restructuring into a false alarm)"""
+    from . import replay
+    wd = driver.Workdir()
+    bad = 0
+    try:
+        prog, cs = driver.load(driver.REPO, wd.path)
+        seen = set()
+        for fn in sorted(k for k in cs.funcs if isinstance(k, str)):
+            cls = replay.find_family(fn)
+            if cls is None:
+                continue
+            try:
+                b = cls.bounded_source(prog, fn)
+            except Exception as e:                       # noqa
+                print('selftest: %s: bounded_source of %s raised %r' % (fn, cls.__name__, e))
+                bad += 1
+                continue
+            if b is None:
+                continue
+            pkgdir, src, bound = b
+            key = (cls.__name__, pkgdir, hash(src))
+            if key in seen:
+                continue
+            seen.add(key)
+            res, out = replay.run_go_test(driver.REPO, pkgdir, src, os.path.join(wd.path, 'fam%d' % len(seen)), timeout=600)
+            print('selftest: family %-18s (%s, for %s): %s' % (cls.__name__, pkgdir, fn.rsplit('/', 1)[-1], res))
+            if res != 'PASS':
+                print(out[-1500:])
+                bad += 1
+        print('selftest: %d bounded stand-ins run on the unchanged tree, %d did not pass' % (len(seen), bad))
+        return 1 if bad else 0
+    finally:
+        wd.cleanup()
+
+
 def run_selftest(args):
+    if getattr(args, 'families', False):
+        return run_families(args)
     # quick: engine smoke test (tools present, exporter runs, contracts parse)
     wd = driver.Workdir()
     try:
